@@ -121,7 +121,7 @@ def check_missing(tc, rec):
     rec.note(nt, labs + [f"carrier={tc.get('carrier', 'f64')}"])
     t = REG()[tc["test"]]
     C = carriers.Carrier(data=tc.get("carrier", "f64"), junk=tc.get("junk", 0.0))
-    site = tc["test"] + ("[masked_junk]" if tc.get("carrier") in ("masked_junk", "masked_mixed") else "")
+    site = tc["test"] + ("[masked_junk]" if tc.get("carrier") in ("masked_junk", "masked_mixed", "masked_int") else "")
     args, kwargs = t.build(tc["case"], C)
     got = flags(rec, site, rec.call(site, t.func(), *args, **kwargs), t.n(tc["case"]), test=tc["test"],
                 carrier=tc.get("carrier"))
@@ -140,7 +140,7 @@ def random_case(draw, tier="quick"):
 @st.composite
 def junk_case(draw, tier="quick"):
     tc = draw(any_case(tier, [t for t in TESTS if t != "valid_range"]))
-    tc["carrier"] = draw(st.sampled_from(["masked_junk", "masked_junk", "masked_mixed"]))
+    tc["carrier"] = draw(st.sampled_from(["masked_junk", "masked_junk", "masked_mixed", "masked_int"]))
     tc["junk"] = draw(st.sampled_from([0.0, 1.0, -3.5, 1000.0, 12.125, -9999.0, 1e20]))
     return tc
 
